@@ -321,12 +321,15 @@ def build_chain(family, ran, perm_seed=None, root=None):
     layer_fds = []
     for layer in reversed(list(family)):          # farthest first
         c = Ordered(parent)
-        fds = []
         ovs = sorted(layer['ovs'], key=lambda o: o['tag'])
-        for o in ovs:
-            fd = build_fd(o, ran)
-            fds.append((o['tag'], fd))
         rng = random.Random(perm_seed) if perm_seed is not None else None
+        creation = list(range(len(ovs)))
+        if rng:
+            rng.shuffle(creation)          # the definitions are also created in a shuffled order
+        made = {}
+        for j in creation:
+            made[j] = build_fd(ovs[j], ran)
+        fds = [(ovs[j]['tag'], made[j]) for j in range(len(ovs))]
         regorder = list(fds)
         if rng:
             rng.shuffle(regorder)
@@ -573,7 +576,7 @@ def run(rep, tier, seed, keep=False, c06=False):
             nreb = 0
             KEEP_FDS[0] = False
             try:
-                for rnd in range(25 if tier == 'quick' else 150):
+                for rnd in range(60 if tier == 'quick' else 300):
                     for fi, call, want in expect[:12]:
                         family = fams[fi - 1]
                         ran = []
